@@ -1,2 +1,11 @@
 import TransportVerif.Props.C13
-#print axioms TV.Props.C13.placeholder
+#print axioms TV.Props.C13.auto_never_taken
+#print axioms TV.Props.C13.assigned_in_subnet
+#print axioms TV.Props.C13.no_address_twice
+#print axioms TV.Props.C13.exhaustion_is_real
+#print axioms TV.Props.C13.open_sockets_never_conflict
+#print axioms TV.Props.C13.bind_succeeds_iff
+#print axioms TV.Props.C13.ephemeral_in_range_and_free
+#print axioms TV.Props.C13.foreign_ip_refused
+#print axioms TV.Props.C13.close_frees
+#print axioms TV.Props.C13.find_returns_the_covering_socket
